@@ -280,7 +280,24 @@ ADDED3 = {
     "C19": (" When the guarding flag is computed by a helper, every path through the helper consults the sender board.", "; must-pass-through of the board lookup in flag helpers"),
     "C20": (" Also: the feature answers are awaited before the enable step; no start-up command is guarded by tracked feedback state.", "; dominance of the answer wait over enable, control-dependence guard-provenance rule"),
 }
+ADDED4 = {
+    "C02": (" The address extractor writes all bytes of the splitter's address array per message (copy + zero padding).", "; must-write (padding loop) rule on the extractor's output"),
+    "C03": (" Every received message passes the node-state update between its allocation and its dispatch.", "; must-pass-through in the splitter"),
+    "C05": (" The numbering switch is only ever assigned constants.", "; constant-store rule on the switch"),
+    "C09": (" No range check is applied to a narrowed copy of a wider value that may not fit.", "; interval analysis at narrowing conversions feeding comparisons"),
+    "C10": (" A tracked-state store that follows the submit of a message in the same function is made under a lock already held exclusively at the submit.",
+            "; lockset comparison between submit and later store per concurrent frame"),
+    "C12": (" The splitter allocates each message with (length byte + 1) bytes.", "; symbolic size check of the message allocation"),
+    "C13": (" Also: a record is appended to a list only with the pointer members non-NULL that a free routine dereferences without a test; every printf-style call has a literal format; "
+            "both start functions store the same constants to the same globals.",
+            "; consumer-derived non-NULL obligations at list appends, format-argument lint over wrappers, sibling agreement of the start functions"),
+    "C16": (" Both start functions store the same constants to the same library globals.", "; sibling agreement of the start functions"),
+    "C20": (" The loops applying the initial values are left only through their own bound.", "; loop-exit rule in the initial-value routine"),
+}
 for _k, (_t, _q) in ADDED3.items():
+    CLAIMS[_k]["text"] = CLAIMS[_k]["text"] + _t
+    CLAIMS[_k]["technique"] = CLAIMS[_k]["technique"] + _q
+for _k, (_t, _q) in ADDED4.items():
     CLAIMS[_k]["text"] = CLAIMS[_k]["text"] + _t
     CLAIMS[_k]["technique"] = CLAIMS[_k]["technique"] + _q
 
